@@ -114,7 +114,7 @@ pub(crate) fn fingerprint(d: &v::VsockDriver) -> String {
     };
     let tf = tx.locked.read().verif_flags();
     format!(
-        "{},{},{},{},{},{},{},{},{},{},{},{},{},{},{},{},{},{},{},{},{},{},{},{},{},{},{},{},{},{},{}|{}|{},{},{},{},{}{}{}{}|{}:{},{},{}{}{}{}{}",
+        "{},{},{},{},{},{},{},{},{},{},{},{},{},{},{},{},{},{},{},{},{},{},{},{},{},{},{},{},{},{},{}|{}|{},{},{},{},{}{}{}{},{}|{}:{},{},{}{}{}{}{}",
         s.state,
         s.state_a,
         s.state_b,
@@ -155,6 +155,7 @@ pub(crate) fn fingerprint(d: &v::VsockDriver) -> String {
         rx.reader_waker_registered as u8,
         rx.reader_dropped as u8,
         rx.vsock_closed as u8,
+        rx.last_remaining_rx_window,
         tlen,
         thash,
         tcap,
